@@ -49,7 +49,7 @@ def _real_of_float(x):
     if x != x or x in (float("inf"), float("-inf")):
         raise OutsideSubset("non-finite float %r in symbolic arithmetic" % (x,))
     fr = Fraction(x)
-    return z3.RealVal(fr.numerator) / z3.RealVal(fr.denominator) if fr.denominator != 1 else z3.RealVal(fr.numerator)
+    return z3.Q(fr.numerator, fr.denominator) if fr.denominator != 1 else z3.RealVal(fr.numerator)
 
 
 def is_sym(v):
